@@ -114,6 +114,29 @@ def c05c(prog, rep):
             got[style[0]] = v.a if v.kind == "const" else render(v)
     rep.check(got == {"Always_Wrap": True, "Auto": False}, R, "begin_style->break_before_begin", "begin_style is converted to break_before_begin as %s (expected Always_Wrap -> true, Auto -> false)" % got,
               where="%s:%d" % (b.file, b.line), instance={"table": {k: str(v) for k, v in got.items()}})
+    # "with always_wrap EVERY begin of a control-flow body starts its own line": where the flag is consulted it decides alone — once it is
+    # read as true, no further question (kind of the parent token, ..) is asked before the break is chosen
+    fb = prog.body(IOLF + "find_optimal_child_lines_solution")
+    if fb is not None:
+        rd = [a for a in prog.field_accesses(OLF + "OptimisingLineFormatterSettings", "break_before_begin", within={fb.npath}) if a[3] == "read"]
+        nflag = 0
+        for a in rd:
+            t = fb.blocks[a[1]]["term"]
+            if t["k"] != "switch":
+                rep.fail(R, "flag-read-is-a-test:bb%d" % a[1], "break_before_begin is read in find_optimal_child_lines_solution without being tested directly (its effect cannot be followed)")
+                continue
+            nflag += 1
+            tgt = t.get("otherwise")
+            hops = 0
+            while tgt is not None and fb.blocks[tgt]["term"]["k"] == "goto" and hops < 12:
+                tgt = fb.blocks[tgt]["term"]["target"]
+                hops += 1
+            asked = tgt is not None and fb.blocks[tgt]["term"]["k"] == "switch"
+            rep.check(not asked, R, "flag-decides-alone:bb%d" % a[1],
+                      "after break_before_begin was read as true, find_optimal_child_lines_solution asks a further question before it breaks the line before `begin`: the setting then does not apply "
+                      "to every control-flow body (e.g. not to the `begin` of a case arm, whose parent token is `:`)", where="%s:%d" % (fb.file, abs(a[4].get("line", 0)) if isinstance(a[4], dict) else fb.line),
+                      instance={"read_at": "bb%d" % a[1], "true_edge": "straight to the break"})
+        rep.floor(R, "tests of break_before_begin in find_optimal_child_lines_solution", nflag, 1)
     readers = sorted({a[0].npath for a in prog.field_accesses(OLF + "OptimisingLineFormatterSettings", "break_before_begin") if a[3] in ("read", "ref")})
     import layout
     layout.inventory(rep, R, "readers of OptimisingLineFormatterSettings.break_before_begin", readers, [IOLF + "find_optimal_child_lines_solution"],
